@@ -401,7 +401,7 @@ def run(ctx):
         'evaluations': n + len(pairs),
         'distinct_nontrivial': len({tuple(f['input']) for f in fails}) + stats['agree'],
         'rule': 'pairs (script, respelling) of the C11 grammar: every whitespace slot respelled by a run of 1-3 of '
-                '{blank, tab, LF, CRLF}, inner whitespace of multi-word keywords respelled (one in six by a run of 4-9), keywords re-cased; '
+                '{blank, tab, LF, CRLF}, inner whitespace of multi-word keywords respelled (one in six by a run of 4-9, one in twelve with a bare CR, FF or VT), keywords re-cased; '
                 'compared: number of statements, get_type, tree with whitespace leaves erased and leaves reduced '
                 'to (ttype, normalised keyword | .); pairs whose slots are not whitespace between tokens are discarded',
         'samples': [''.join(map(chr, f['input']))[:120] + ' => ' + ''.join(map(chr, f['respelled']))[:120]
